@@ -131,11 +131,13 @@ class PandasMaterializer(FormulaMaterializer):
         ]
 
         # Pre-multiply factors with only one set of values (improves performance)
-        solo_factors = {}
+        # (a list: two factors may have a column of the same name, e.g. a data
+        # column called `A[T.x]` next to the dummy of level x of `A`)
+        solo_factors: list[tuple[str, Any]] = []
         indices = []
         for i, factor in enumerate(factors):
             if len(factor) == 1:
-                solo_factors.update(factor)
+                solo_factors.extend(factor.items())
                 indices.append(i)
         if solo_factors:
             for index in reversed(indices):
@@ -143,17 +145,18 @@ class PandasMaterializer(FormulaMaterializer):
             if spec.output == "sparse":
                 factors.append(
                     {
-                        ":".join(solo_factors): functools.reduce(
-                            spsparse.csc_matrix.multiply, solo_factors.values()
+                        ":".join(name for name, _ in solo_factors): functools.reduce(
+                            spsparse.csc_matrix.multiply,
+                            (values for _, values in solo_factors),
                         )
                     }
                 )
             else:
                 factors.append(
                     {
-                        ":".join(solo_factors): functools.reduce(
+                        ":".join(name for name, _ in solo_factors): functools.reduce(
                             numpy.multiply,
-                            (_as_array(p) for p in solo_factors.values()),
+                            (_as_array(values) for _, values in solo_factors),
                         )
                     }
                 )
